@@ -77,6 +77,13 @@ pub fn plan(property: &str, seed: u64, idx: u64, thorough: bool) -> CasePlan {
             p.w_tx = 5;
             fronts = vec![0, 1, 2];
             p.big_values = rng.chance(1, 3);
+            // histories also create, delete and re-create keyspaces (same set of keyspaces after reopen)
+            if rng.chance(1, 2) {
+                p.n_ks = rng.range(2, 4) as u8;
+                p.w_create = 2;
+                p.w_delete = 2;
+                p.w_drop_handle = 1;
+            }
         }
         "C11" => {
             p.w_reopen = 4;
